@@ -250,6 +250,9 @@ def run(ctx):
     ctx.check('R4', 'handle_new_result is called only for flag-true messages', ok, 'Pool.run', 'result-from-end-marker',
               'an end-of-stream message can be appended as a result', where=loc(run_f, run_f.node))
 
+    check_frame(ctx, pool)
+    check_enqueue_callers(ctx, pool, run_f, cl)
+
     # ---------------------------------------------------------------- R5 verdict, loop condition, guard reset
     oks = [st for st in walk_local(run_f.node) if isinstance(st, ast.Assign) and is_name(st.targets[0], N['ok'])]
     conj = set()
@@ -294,14 +297,96 @@ def run(ctx):
                   'a bare EOF of a result pipe is not turned into a closing message: the death of that worker is never handled', where=loc(run_f, recv_try))
 
 
-def dominated_by_not_closed(g, node):
+def check_enqueue_callers(ctx, pool, run_f, cl, rule='R3'):
+    """try_enqueue draws an input from the source *before* it looks at the closed set: every caller must know that the worker is not closed"""
+    gi = cl.get('get_next_idle_worker')
+    filters = gi is not None and any(last_attr(c) == 'difference' and c.args and norm(c.args[0]) == 'self._closed' for c in calls_in(gi.node))
+    n = 0
+    for f in [run_f] + list(cl.values()):
+        calls = [c for c in calls_in(f.node) if isinstance(c.func, ast.Name) and c.func.id == 'try_enqueue']
+        if not calls:
+            continue
+        g = ctx.an.cfg(f, pool)
+        for c in calls:
+            n += 1
+            arg = c.args[0] if c.args else None
+            nodes = [x for x in g.nodes if x.stmt is not None and x.part == 'eval' and any(y is c for y in x.calls())]
+            ok = bool(nodes) and all(dominated_by_not_closed(g, x, var=arg.id if isinstance(arg, ast.Name) else None) for x in nodes)
+            if not ok and isinstance(arg, ast.Name) and filters:
+                # the worker came from get_next_idle_worker(), which filters the closed set
+                defs = [st for st in walk_local(f.node) if isinstance(st, ast.Assign) and is_name(st.targets[0], arg.id)]
+                ok = bool(defs) and all(isinstance(d.value, ast.Call) and isinstance(d.value.func, ast.Name) and d.value.func.id == 'get_next_idle_worker' for d in defs)
+            ctx.check(rule, f'{f.short}: try_enqueue({norm(arg)}) is only called for a worker known not to be closed', ok, f.short, f'try_enqueue-for-closed-worker@{f.name}',
+                      f'{f.short} calls try_enqueue() for a worker that may already be dead/closed; try_enqueue draws the next input from the source before it checks the closed set, so an '
+                      'input is taken for a dead worker: with retry disabled it is silently dropped (Pool.run returns normally with results missing), and a per-worker source is called for a dead worker',
+                      where=loc(f, c))
+    ctx.floor('try_enqueue call sites', n, 3)
+
+
+BOOKKEEPING = {
+    # attribute -> {function name: allowed mutation kinds}; confirmed by reading pool.py - every other mutation site changes what "pending" means
+    '_pending': {'run': {'assign'}, 'handle_enqueue': {'aug'}, 'handle_new_result': {'aug'}, 'handle_death': {'aug'}, '__init__': {'assign'}},
+    '_pending_per_worker': {'run': {'assign'}, 'handle_enqueue': {'append'}, 'handle_new_result': {'pop'}, 'handle_death': {'clear'}, '__init__': {'assign'}},
+    '_retries': {'run': {'assign'}, 'next_inputs': {'pop'}, 'handle_death': {'extend'}, 'handle_unused_data': {'insert', 'append'}, '__init__': {'assign'}},
+    '_closed': {'handle_death': {'add'}, '__init__': {'assign'}},
+    '_depleted': {'run': {'assign'}, 'next_inputs': {'assign'}, '__init__': {'assign'}},
+}
+MUTATORS = ('append', 'extend', 'insert', 'pop', 'clear', 'add', 'remove', 'discard', 'update', 'popitem', 'setdefault', 'difference_update', 'sort', 'reverse')
+
+
+def check_frame(ctx, pool):
+    n = 0
+    for f in ctx.prog.funcs.values():
+        owner = f.cls
+        q = f.parent
+        while owner is None and q is not None:
+            owner = q.cls
+            q = q.parent
+        if owner is not pool:
+            continue
+        for node in walk_local(f.node):
+            hits = []
+            if isinstance(node, (ast.Assign, ast.AugAssign)):
+                targets = node.targets if isinstance(node, ast.Assign) else [node.target]
+                for t in targets:
+                    for el in (t.elts if isinstance(t, ast.Tuple) else [t]):
+                        base = el
+                        sub = False
+                        while isinstance(base, ast.Subscript):
+                            base, sub = base.value, True
+                        if is_self_attr(base) and base.attr in BOOKKEEPING:
+                            hits.append((base.attr, 'aug' if isinstance(node, ast.AugAssign) else ('setitem' if sub else 'assign')))
+            if isinstance(node, ast.Delete):
+                for t in node.targets:
+                    base = t
+                    while isinstance(base, ast.Subscript):
+                        base = base.value
+                    if is_self_attr(base) and base.attr in BOOKKEEPING:
+                        hits.append((base.attr, 'del'))
+            if isinstance(node, ast.Call) and last_attr(node) in MUTATORS and isinstance(node.func, ast.Attribute):
+                base = node.func.value
+                while isinstance(base, ast.Subscript):
+                    base = base.value
+                if is_self_attr(base) and base.attr in BOOKKEEPING:
+                    hits.append((base.attr, last_attr(node)))
+            for attr, kind in hits:
+                n += 1
+                ok = kind in BOOKKEEPING[attr].get(f.name, set())
+                ctx.check('R7', f'{f.short}: `{kind}` of self.{attr} is one of the known bookkeeping updates', ok, f.short, f'unexpected-bookkeeping-update:{attr}.{kind}@{f.name}',
+                          f'{f.short} mutates the Pool bookkeeping `self.{attr}` ({kind}) outside the update sites the conservation argument covers: inputs can be lost, duplicated or '
+                          'handed to dead workers', where=loc(f, node))
+    ctx.floor('Pool bookkeeping update sites', n, 18)
+
+
+def dominated_by_not_closed(g, node, var=None):
     """node is dominated by the not-closed side of a `<x>.id in/not in self._closed` test"""
     dom = g.dominators(edge_ok=is_flow)
     good = set()
     for n in g.nodes:
         if n.kind == 'test' and isinstance(n.stmt, (ast.If,)) and n.part in (None, 'post'):
             t = n.stmt.test
-            if isinstance(t, ast.Compare) and len(t.ops) == 1 and norm(t.comparators[0]) == 'self._closed' and norm(t.left).endswith('.id'):
+            if isinstance(t, ast.Compare) and len(t.ops) == 1 and norm(t.comparators[0]) == 'self._closed' and norm(t.left).endswith('.id') \
+                    and (var is None or norm(t.left) == f'{var}.id'):
                 want = 'false' if isinstance(t.ops[0], ast.In) else ('true' if isinstance(t.ops[0], ast.NotIn) else None)
                 for e in n.succ:
                     if e.kind == want:
